@@ -80,7 +80,7 @@ func (x *Exec) oblige(st *State, kind, name string, goal *Term, pos token.Pos, c
 		return
 	}
 	for _, a := range st.PC {
-		if same(a, goal) {
+		if a == goal {
 			x.Obls = append(x.Obls, &Obligation{Name: full, Kind: kind, Func: x.V.P.FuncKey(x.Fn), Goal: goal, Pos: x.V.P.Pos(pos), Clause: clause, Status: "discharged", Backend: "syntactic", Syntactic: true})
 			return
 		}
